@@ -116,6 +116,10 @@ class IASolverBaseClass:  # pylint: disable=R0902
         """
         self._F = None
         self._full_F = None
+        # The full receive filters compensate the direct channel *including
+        # the precoder*: they are derived from full_F too
+        self._full_W_H = None
+        self._full_W = None
 
     def clear(self) -> None:
         """
@@ -455,6 +459,11 @@ class IASolverBaseClass:  # pylint: disable=R0902
                 self._P = np.array(value)
             else:
                 raise ValueError("P cannot be negative or equal to zero.")
+
+        # Everything that was scaled with the previous power is outdated
+        self._full_F = None
+        self._full_W_H = None
+        self._full_W = None
 
     @property
     def Ns(self) -> np.ndarray:
